@@ -337,6 +337,14 @@ def main_for(pid, tier_):
                 it['schedules'] = it['schedules'][:2] + [['cancel_all', rng.randrange(1 << 30), rng.choice([0.0, 0.3]), 0]]
     recs = run_items(items)
     extra = None
+    if pid == 'C02':
+        # the model's own schedule space (all interleavings, not only FIFO): random walks looking for stuck states
+        from . import explore
+        st, bad = explore.explore(150 if tier_ == 'quick' else 1500, 40 if tier_ == 'quick' else 120, C.seed())
+        if bad or st['timeout'] or st['refused'] or st['bad_oracle']:
+            raise C.ToolFailure('model-schedule exploration: the model gets stuck / refuses a step inside the fragments: '
+                                + json.dumps(bad[:3]) + json.dumps({k: v for k, v in st.items() if k != 'by_shape'}))
+        extra = {'model_schedule_exploration': st}
     if pid == 'C03':
         from . import multirun
         stats, bad = multirun.c03_histories(400 if tier_ == 'quick' else 4000)
